@@ -17,6 +17,7 @@ import YtkProofs.ValidB
 import YtkProofs.HeapBuilder
 import YtkProofs.HeapBuilderRefine
 import YtkProofs.HeapBuild
+import YtkProofs.HeapBuilderRun
 
 namespace Ytk.C03
 
@@ -382,6 +383,29 @@ theorem heap_step_closed (h h' : Heap) (op : HOp) (ret : Option Addr) (hi : Inv 
 /-- INVARIANT of every history in which each call is `Ok` in the heap it is applied to. -/
 theorem heap_run_closed (h h' : Heap) (ops : List HOp) (hrun : SafeRun h ops h') (hi : Inv h) :
     Inv h' ∧ Ytk.Heap.hrun h ops = .ok h' := ⟨hrun.inv hi, hrun.hrun_ok⟩
+
+/-- TREE-NESS IS AN INVARIANT TOO: in a tree-shaped document every call made on a cell of the document
+    (the root or a live handle) that attaches a tree sharing at most leaves with the document
+    (`HOp.TreeOk`) leaves a well-formed, tree-shaped document — so the hypotheses of the refinement
+    theorems (`heap_addValueAt_abs` …) hold again after the call, and hence at EVERY step of a history
+    (`TreeRun`). -/
+theorem heap_run_tree (root : Addr) (h h' : Heap) (ops : List HOp) (hrun : TreeRun root h ops h') (hi : Inv h)
+    (hs : SibSep h root) (hrl : root < h.size) : Inv h' ∧ SibSep h' root ∧ root < h'.size :=
+  hrun.inv hi hs hrl
+
+theorem heap_step_tree (root : Addr) (h h' : Heap) (op : HOp) (ret : Option Addr) (hi : Inv h) (hs : SibSep h root)
+    (hrl : root < h.size) (hok : op.TreeOk h root) (he : hstep h op = .ok (h', ret)) :
+    Inv h' ∧ SibSep h' root := hstep_tree hi hs hrl hok he
+
+/-- … and each root-level call of such a history IS the value-level step `bstep` of
+    YtkModel/Builder.lean on the abstraction (`HOp.toBOp`: AddValue / AddValueAt / AddContainer / AddList /
+    Remove / RemoveAt / Walk(CompactFn); list calls go through their list handle: `heap_listSet_abs`). -/
+theorem heap_step_refines_bstep (h h' : Heap) (root : Addr) (op : HOp) (ret : Option Addr) (d : AMap Node)
+    (vn : Node) (bop : BOp) (hi : Inv h) (hs : SibSep h root) (hrl : root < h.size) (hok : op.TreeOk h root)
+    (htgt : op.target = root) (hd : abs h root = some (.cont d)) (hv : ∀ v, op.value = some v → abs h v = some vn)
+    (hb : op.toBOp vn = some bop) (he : hstep h op = .ok (h', ret)) :
+    ∃ d', bstep d bop = .ok d' ∧ abs h' root = some (.cont d') :=
+  hstep_bstep hi hs hrl hok htgt hd hv hb he
 
 /-- The hypothesis on the attached node cannot be dropped: attaching an ANCESTOR below itself
     (`#2.AddValue("up", #1)` where #1 = {"a": #2}) gives a closed heap that is cyclic, and the
